@@ -198,6 +198,12 @@ def k15_relative(res, tier, seed, tag="k15r"):
                 return [Fraction(0) if r.random() < dry else w for w in wet]
             o, h, f = mk(no), mk(nh), mk(nf)
             thr = Fraction(r.choice([1, 8, 24]), 16); cth = Fraction(1, r.choice([100, 1000]))
+            # expected number of rainy days = round(rainy_f * (rainy_o / n_o) / (rainy_h / n_h)): when the exact value is a
+            # half-integer the float evaluation lands on either side of the tie (2.5000000000000004 vs 2.5) — a discontinuity
+            # hit exactly after inexact arithmetic: skipped and counted
+            ro, rh_, rf_ = sum(1 for v in o if v >= thr), sum(1 for v in h if v >= thr), sum(1 for v in f if v >= thr)
+            if ro and rh_ and rf_ and (Fraction(rf_) * Fraction(ro, no) / Fraction(rh_, nh)).denominator == 2:
+                res.count("k15-skipped-at-rounding-tie"); continue
             d = D.ScaledDistributionMapping(distribution=rat, mapping_type="relative", pr_lower_threshold=float(thr), cdf_threshold=float(cth))
             args = "ratls %s %s %s %s %s" % (C.q(thr), C.q(cth), C.ql(o), C.ql(h), C.ql(f))
             try:
